@@ -322,11 +322,30 @@ fn run_combo(fx: &Fixture, n: usize, k: usize, t_first: u64, t_good: u64, t_own:
     let mut arrangements: HashSet<usize> = HashSet::new();
 
     if let Some((stream, cseed)) = only {
-        // replay of one recorded commit
-        let _ = commit_once(stream, cseed, &mut res);
-        if stream == Stream::Good {
-            if let Some((a, _, _)) = commit_once(stream, cseed, &mut res) {
-                let _ = a;
+        // replay of one recorded commit: the same per-commit oracles as in the batch
+        if let Some((c, bytes, _)) = commit_once(stream, cseed, &mut res) {
+            if c.preimages.iter().flatten().any(|l| *l >= P) {
+                res.findings.push(Finding { class: "commit:non-canonical-preimage".into(), detail: format!("preimages {:?}", c.preimages), n, k, stream, commit_seed: cseed });
+            }
+            if let Stream::NonCanonicalFirst { .. } = stream {
+                if c.preimages.iter().any(|p| p.iter().all(|l| *l == u64::MAX % P)) {
+                    res.findings.push(Finding { class: "commit:non-canonical-preimage".into(), detail: "an all-ones draw was reduced into a preimage instead of being rejected".into(), n, k, stream, commit_seed: cseed });
+                }
+            }
+            if stream == Stream::Good {
+                let limbs: Vec<u64> = c.preimages.iter().flatten().copied().collect();
+                let uniq: HashSet<u64> = limbs.iter().copied().collect();
+                if uniq.len() != limbs.len() {
+                    res.findings.push(Finding { class: "commit:preimage-limbs-repeat".into(), detail: format!("the {} preimage limbs of one commit are not pairwise distinct: {:?}", limbs.len(), c.preimages), n, k, stream, commit_seed: cseed });
+                }
+                if bytes < 32 * n as u64 {
+                    res.findings.push(Finding { class: "commit:too-little-randomness".into(), detail: format!("one commit consumed {bytes} bytes of randomness; {n} independent 32-byte preimages need at least {}", 32 * n), n, k, stream, commit_seed: cseed });
+                }
+                if let Some((c2, _, _)) = commit_once(stream, cseed, &mut res) {
+                    if c2 != c {
+                        res.findings.push(Finding { class: "commit:randomness-outside-the-seam".into(), detail: "two commits with the same inputs and the same seeded stream differ".into(), n, k, stream, commit_seed: cseed });
+                    }
+                }
             }
         }
         return res;
